@@ -8,12 +8,14 @@ KNOBS = {'max_tasks': 10, 'cancel_prob': 0.6, 'preplaced_share': 0.12,
 
 
 def _nontrivial(sc, res):
+    if sc.get('focus') == 'nodelist':
+        return res.get('n_grants', 0) >= 2
     return bool(sc['ops']) or any(t['rc'] or t.get('spawn_error') or
                                   t['descr'].get('timeout')
                                   for t in sc['tasks'])
 
 
-gen, run = S.make_check(PROP, ['full', 'full', 'sched'], KNOBS, _nontrivial)
+gen, run = S.make_check(PROP, ['full', 'full', 'sched', 'nodelist'], KNOBS, _nontrivial)
 shrink = S.shrink
 SEEDS  = {'quick': 1200, 'thorough': 40000}
 BUDGET = {'quick': 240, 'thorough': 3000}
